@@ -452,6 +452,11 @@ func checkLabels(c lblCase) (fw.Outcome, *fw.Violation) {
 		}
 		if v := checkDerivedExpr("message_text", text, c.Prepared, c.Ansi); v != nil {
 			v.Sig += ":" + name
+			if _, isNode := printsOfTree(out.stmts[0])[text]; !isNode {
+				// the quoted text is not the print of a node of the query: csvq built the expression itself (a reference made
+				// from a column name)
+				v.Sig += ":not_a_node"
+			}
 			v.Msg = fmt.Sprintf("%s (query %s, message %q)", v.Msg, clipq(q1), a.errMsg)
 			return o, v
 		}
